@@ -96,6 +96,18 @@ class Accum:
         return f"<Accum {self.name} +{len(self.appended)}>"
 
 
+class HavocColl:
+    """A container that is mutated inside a cut-point loop: at an arbitrary iteration its content is unknown
+    (membership queries answer with fresh booleans, memoised per syntactic key)."""
+    def __init__(self, name):
+        self.name = name
+        self.memo = {}
+        self.mutations = []
+
+    def __repr__(self):
+        return f"<HavocColl {self.name}>"
+
+
 class FuncVal:
     def __init__(self, node, module, cls=None):
         self.node, self.module, self.cls = node, module, cls
